@@ -222,8 +222,10 @@ fn validate_type(env: &TypeEnv, seen: &mut BTreeMap<String, bool>, t: &Type) -> 
         TypeInner::Func(func) => validate_func(env, seen, func),
         TypeInner::Service(methods) => {
             for (_, ty) in methods.iter() {
-                let func = env.as_func(ty)?;
-                validate_func(env, seen, func)?;
+                // the method must denote a function; validate it through its name,
+                // so that a definition that mentions itself is visited only once
+                env.as_func(ty)?;
+                validate_type(env, seen, ty)?;
             }
             Ok(())
         }
